@@ -59,6 +59,7 @@ def check(run):
     _node_face(run, P)
     _face_face(run, P)
     _holes(run, P)
+    _holes_getter(run, P)
     # incidence tables SUPPLIED by a source (MPAS cellsOnVertex/cellsOnEdge/cellsOnCell, ICON, UGRID files) reach the grid in standard form
     # and are built from the source variables of that role: the typestate and role rules of the readers, restricted to the three tables
     from .c01 import _conn
@@ -361,3 +362,45 @@ def _holes(run, P):
         run.holds("IDX/hole-edges", c, where(f, n), "boundary edges = rows whose second face slot is INT_FILL_VALUE")
     else:
         run.violation("IDX/hole-edges", c, where(f, n), f"hole edges are taken from {norm(n)}; a boundary edge is one whose SECOND face slot (column 1) equals INT_FILL_VALUE (slot 0 is always filled first)")
+
+def _holes_getter(run, P):
+    """Grid.hole_edge_indices stores nothing but the rows _construct_hole_edge_indices finds in edge_face_connectivity.  "Exactly the edges with a single adjacent face"
+    cannot be known without looking at which faces the edges have: a value stored from anything else (an empty table under a counting argument such as Euler's formula,
+    which two disjoint patches also satisfy; a constant) is not that set."""
+    from ..astutil import LocalDefs
+    f = P.func("uxarray/grid/grid.py:Grid.hole_edge_indices")
+    defs = LocalDefs(f.node)
+    c = "Grid.hole_edge_indices:stored-from-edge-faces"
+    stores = [st for st in ast.walk(f.node) if isinstance(st, ast.Assign) and isinstance(st.targets[0], ast.Subscript) and str_const(st.targets[0].slice) == "hole_edge_indices"]
+    if not stores:
+        run.incomplete("IDX/hole-edges", c, where(f), "no store of hole_edge_indices in the getter")
+        return
+
+    def leaves(e, depth=0):
+        """the defining expressions of e (all bindings of a local are alternatives)"""
+        if isinstance(e, ast.Name) and e.id in defs.defs and depth < 5:
+            out = []
+            for v, _i, _l in defs.defs[e.id]:
+                out += leaves(v, depth + 1)
+            return out
+        return [e]
+    for st in stores:
+        for v in leaves(st.value):
+            call = v if isinstance(v, ast.Call) else None
+            nm = (dotted(call.func) or [""])[-1] if call is not None and dotted(call.func) else ""
+            if nm == "DataArray" and call is not None:
+                inner = call.args[0] if call.args else next((k.value for k in call.keywords if k.arg == "data"), None)
+                vv = leaves(inner)[0] if inner is not None else None
+                call = vv if isinstance(vv, ast.Call) else None
+                nm = (dotted(call.func) or [""])[-1] if call is not None and dotted(call.func) else ""
+            if nm == "_construct_hole_edge_indices" and call.args and "edge_face_connectivity" in norm(call.args[0]):
+                run.holds("IDX/hole-edges", c, where(f, st), "stored from _construct_hole_edge_indices(edge_face_connectivity)")
+            elif nm in ("empty", "zeros", "array", "asarray", "arange", "full") or isinstance(v, (ast.List, ast.Tuple, ast.Constant)):
+                if any("edge_face_connectivity" in norm(x) or "face_edge_connectivity" in norm(x) for x in ast.walk(v) if isinstance(x, (ast.Attribute, ast.Subscript))):
+                    run.incomplete("IDX/hole-edges", c, where(f, st), f"stored from {norm(v)[:60]}: an own derivation from the incidence tables, not read by this rule")
+                else:
+                    run.violation("IDX/hole-edges", c, where(f, st), f"on one path hole_edge_indices is stored from `{norm(v)[:60]}`, which looks at no edge-face incidence at all: whether an edge has a single "
+                                  "adjacent face cannot follow from element counts (two disjoint patches have Euler characteristic 2 and nothing but boundary edges)")
+            else:
+                run.incomplete("IDX/hole-edges", c, where(f, st), f"stored from {norm(v)[:60]}: not recognised as the single-face rows of edge_face_connectivity")
+
